@@ -244,10 +244,59 @@ def section(vars_, plan, tag):
     return exprs, logs, requested, finals
 
 
+def build_branch(plan):
+    """plan: {"branch": "then" | "else" | "join" | "both", "n": k, "sub": bool}.  k automatically numbered uint64
+    variables; first block: every variable stored, an unrelated op, every variable read back (store and load NOT
+    adjacent); later block (Then arm / Else arm / after the join / both arms): each variable stored again and loaded
+    IMMEDIATELY (the `store v; load v` shape the slot optimiser looks at) and logged.  No path has two stores of a
+    variable without a load in between (the known optimiser defect of C01/C05 is a different shape)."""
+    n = plan.get("n", 1)
+    shape = plan["branch"]
+    base = plan.get("base", 0)
+
+    def body():
+        vs = [pt.ScratchVar(pt.TealType.uint64) for _ in range(n)]
+        m0 = [marker(base + i, U, 0) for i in range(n)]
+        m1 = [marker(base + i, U, 1) for i in range(n)]
+        first = [v.store(m0[i][0]) for i, v in enumerate(vs)] + [pt.Pop(pt.Int(9))] + \
+                [pt.Assert(v.load() == m0[i][0]) for i, v in enumerate(vs)]
+        def later():
+            return pt.Seq(*[pt.Seq(v.store(m1[i][0]), pt.Log(pt.Itob(v.load()))) for i, v in enumerate(vs)])
+        if shape == "then":
+            ctl = [pt.If(pt.Int(1)).Then(later())]
+        elif shape == "else":
+            ctl = [pt.If(pt.Int(0)).Then(pt.Pop(pt.Int(5))).Else(later())]
+        elif shape == "both":
+            ctl = [pt.If(pt.Int(1)).Then(later()).Else(later())]
+        else:
+            ctl = [pt.If(pt.Int(1)).Then(pt.Pop(pt.Int(5))), later()]
+        return first + ctl, [x[1].to_bytes(8, "big") for x in m1], [x[1] for x in m1]
+
+    if plan.get("sub"):
+        info = {}
+
+        def c10_branch_sub():
+            ex, lg, fin = body()
+            info["x"] = (lg, fin)
+            return pt.Seq(*ex, pt.Return(pt.Int(77)))
+
+        fn = pt.Subroutine(pt.TealType.uint64)(c10_branch_sub)
+        g = pt.ScratchVar(pt.TealType.uint64)
+        expr = pt.Seq(g.store(pt.Int(5)), pt.Assert(fn() == pt.Int(77)), pt.Assert(g.load() == pt.Int(5)), pt.Approve())
+        # the subroutine body is evaluated at compile time; markers are deterministic, so compute them here as well
+        lg = [marker(base + i, U, 1)[1].to_bytes(8, "big") for i in range(n)]
+        fin = [marker(base + i, U, 1)[1] for i in range(n)] + [5]
+        return expr, [], (lg, {}, fin), {}, []
+    ex, lg, fin = body()
+    return pt.Seq(*ex, pt.Approve()), [], (lg, {}, fin), {}, []
+
+
 def build(plan):
     """plan: {"shared": [varspec...], "main": [varspec...], "subs": [{"vars": [...], "ret": bool} ...], "nest": bool, "overwrite": [...],
               "dynamic": {"main": [(0, [targets])], "sub0": ...}, "perm": k, "single_read": bool, "nlogs": n}
     Variable indices are global over the plan (main first, then each sub)."""
+    if "branch" in plan:
+        return build_branch(plan)
     counter = [0]
     _HELPERS.clear()
 
